@@ -75,7 +75,9 @@ CLAIMS = {
          "transposed loads/stores, four load_counters variants incl. the carry tricks of the C/asm code, the batch/remainder "
          "cascades of every back end, row-vectorised compress with diagonalisation, lane-parallel xof) equal the portable "
          "kernel for all arguments, giving PlatformOK for SSE2/SSE4.1/AVX2/AVX-512 (and FFI flavours); portable = spec "
-         "compression. Correspondence at kernel level for EVERY executable flavour (Rust asm/intrinsics/pure builds, C "
+         "compression; every load_counters* function of the C-intrinsics and Rust-intrinsics back ends is TRANSLATED statement by "
+         "statement (gen/GenCounters.v over the intrinsic semantics of Model/Intrinsics.v) and proved equal to the counter models and "
+         "to 'lane i = low/high word of counter + i' for all counters. Correspondence at kernel level for EVERY executable flavour (Rust asm/intrinsics/pure builds, C "
          "intrinsics, Unix assembly, Windows-GNU assembly via ms_abi) against the extracted portable model: block_len 0..64, "
          "flags 0..255, counters around 2^32/2^63/2^64, num_inputs 0..2*degree+1, alignments, xof 1..35 blocks.",
          "Partial: the assembly and intrinsics CODE is not modelled instruction by instruction (no ISA semantics installed): "
@@ -93,7 +95,10 @@ CLAIMS = {
          "their domains; the C wide recursion = the Rust one; every index of the in-place stack is in bounds.  Correspondence: the "
          "real C library (assembly and intrinsics builds, all five feature masks through g_cpu_features) against the extracted C "
          "model and against the Rust crate on histories of update/finalize/finalize_seek/reset/clone, all four initialisers, seeks "
-         "up to 2^64-1-n.",
+         "up to 2^64-1-n.  END TO END (C06_machine_refines_spec): every history over the C case language (several hasher structs, "
+         "update, finalize, finalize_seek, reset, memcpy clones, forced memcmp results) that the specification-only machine "
+         "(Model/CSpecMachine.v) accepts is reproduced exactly by the C model without panic on every PlatformOK platform; "
+         "C06_machine_equals_rust: on new/update/finalize/reset histories the C model and the Rust model give the same bytes.",
          "The kernels behind the dispatcher are the platform record (PlatformOK, tied by C05 and by the five feature masks run "
          "here); blake3_hasher_init_derive_key (NUL-terminated string) is modelled as strlen + the raw initialiser; the TBB path is C08.",
          "Coq proof of the C hasher model (full refinement) + differential run of the real C library in 2 builds x 5 feature masks"),
